@@ -114,6 +114,21 @@ impl Conc {
         c
     }
 
+    /// X/Y ids are neighbouring doubles (id i = the i-th double after `base`): what rounding noise looks like
+    /// (0.1 + 0.2 versus 0.3).  Not exact for products: closure and vertex preservation only.
+    pub fn ulps(rng: &mut Rng) -> Conc {
+        let mut c = Self::new_with(rng, false, None, false);
+        let base: f64 = *rng.pick(&[0.3, 1.0, 1e10, 123456.789, 2.5e-7, 0.1 + 0.2]);
+        c.xy.clear();
+        for v in IDMIN..=IDMAX {
+            c.xy.insert(v, f64::from_bits((base.to_bits() as i64 + v as i64) as u64));
+        }
+        c.rev_xy = c.xy.iter().map(|(k, v)| (v.to_bits(), *k)).collect();
+        c.descr = format!("xy = neighbouring doubles around {}", base);
+        c.check();
+        c
+    }
+
     /// the concretisation a TLC-generated case file declares in its meta line
     pub fn from_meta(meta: &Value) -> Conc {
         let tab = |v: &Value| -> BTreeMap<i32, f64> {
